@@ -88,8 +88,20 @@ func vfC04Timing(e *vfEnv, r *vfResult, idx int) { //nolint:cyclop
 	d, f := durs[rng.IntN(len(durs))], durs[rng.IntN(len(durs))]
 	lite := rng.IntN(4) == 0
 	controlling := !lite && rng.IntN(2) == 0
+	// documented defaults instead of explicit values: disconnected 5 s (lite 10 s), failed 25 s
+	nilD, nilF := rng.IntN(4) == 0, rng.IntN(6) == 0
+	if nilD {
+		d = 5 * time.Second
+		if lite {
+			d = 10 * time.Second
+		}
+	}
+	if nilF {
+		f = 25 * time.Second
+	}
 	s.desc["disconnected_timeout"], s.desc["failed_timeout"], s.desc["lite"], s.desc["controlling"] = d.String(), f.String(), lite, controlling
-	if err := s.setupAgentVsPeer(vfSideCfg{MaxBinding: 1000, DiscTimeout: d, FailTimeout: f, Lite: lite, TieBreaker: 99}, controlling, 1, 1, true); err != nil {
+	s.desc["disconnected_timeout_defaulted"], s.desc["failed_timeout_defaulted"] = nilD, nilF
+	if err := s.setupAgentVsPeer(vfSideCfg{MaxBinding: 1000, DiscTimeout: d, FailTimeout: f, NilDisc: nilD, NilFail: nilF, Lite: lite, TieBreaker: 99}, controlling, 1, 1, true); err != nil {
 		r.inconclusive(1)
 		r.note("setup: %v", err)
 
@@ -196,7 +208,7 @@ func vfC04Timing(e *vfEnv, r *vfResult, idx int) { //nolint:cyclop
 			s.dropAll()
 		}
 	}
-	r.distinct(fmt.Sprintf("timing/D=%v/F=%v/lite=%v/ctrl=%v", d, f, lite, controlling))
+	r.distinct(fmt.Sprintf("timing/D=%v/F=%v/lite=%v/ctrl=%v/defaultD=%v/defaultF=%v", d, f, lite, controlling, nilD, nilF))
 	if idx < 2 {
 		s.A.mu.Lock()
 		st := fmt.Sprint(s.A.states)
